@@ -75,6 +75,36 @@ decreasing_by
   all_goals simp_wf
   all_goals (simp only [Re.size]; first | omega | (apply Prod.Lex.left; omega) | (apply Prod.Lex.right; omega))
 
+def guardOpt {α : Type} (b : Bool) (x : Option α) : Option α :=
+  match b with
+  | true => x
+  | false => none
+
+/-- The same matcher with an `Option`-valued continuation: the answer is the one the
+    continuation gives on the *first* successful path in backtracking order (greedy star,
+    ordered alternation), i.e. what CPython's engine reports. -/
+def btO {α : Type} : Re → Text → (Text → Option α) → Option α
+  | eps, s, k => k s
+  | chr c, s, k =>
+    match s with
+    | [] => none
+    | d :: ds => guardOpt (c == d) (k ds)
+  | cls neg rs, s, k =>
+    match s with
+    | [] => none
+    | d :: ds => guardOpt (clsMatch neg rs d) (k ds)
+  | cat a b, s, k => btO a s (fun s' => btO b s' k)
+  | alt a b, s, k => (btO a s k).orElse (fun _ => btO b s k)
+  | star a, s, k =>
+    (btO a s (fun s' => if s'.length < s.length then btO (star a) s' k else none)).orElse (fun _ => k s)
+termination_by r s _ => (r.size, s.length)
+decreasing_by
+  all_goals simp_wf
+  all_goals (simp only [Re.size]; first | omega | (apply Prod.Lex.left; omega) | (apply Prod.Lex.right; omega))
+
+/-- `\s` and `\d` of a str pattern (generated ranges are passed in by the caller) -/
+def inClass (rs : List (Char × Char)) (c : Char) : Bool := inRanges c rs
+
 /-- `re.fullmatch` -/
 def fullMatch (r : Re) (s : Text) : Bool := bt r s (fun rest => rest.isEmpty)
 
